@@ -89,7 +89,21 @@ def gen_operand(rng):
 
 def gen_kernel_line(rng):
     kind = rng.weighted([("fold", 30), ("merge", 14), ("trip", 16), ("flex", 12), ("order", 4), ("unwrap", 4),
-                         ("ccp", 14), ("iv", 8), ("sr", 8), ("dce", 8), ("lvn", 10), ("cse", 6)])
+                         ("ccp", 14), ("iv", 8), ("sr", 8), ("dce", 8), ("lvn", 10), ("cse", 6), ("inl", 8)])
+    if kind == "inl":
+        # callee with np parameters (v0..), SSA body of Binary statements and at most one print (inline cost <= 20)
+        np_ = rng.range(0, 3)
+        args = [rng.pick(["v0", "v1", f"i{rng.range(-4, 9)}"]) for _ in range(np_)]
+        toks, nv, printed = [], np_, False
+        def opd():
+            return f"v{rng.below(nv)}" if (nv and rng.chance(3, 4)) else f"i{rng.range(-3, 9)}"
+        for _ in range(rng.range(0, 7)):
+            if not printed and rng.chance(1, 5):
+                toks += ["p", opd()]; printed = True
+            else:
+                toks += ["b", f"v{nv}", rng.pick(OPS), opd(), opd()]; nv += 1
+        ret = opd()
+        return [f"inl {np_} " + " ".join(args + [ret] + toks)]
     if kind == "cse":
         pool = [(rng.pick([o for o in OPS if o != "sub"]), f"v{rng.below(2)}", rng.pick(["v0", "v1", f"i{rng.range(1, 5)}"])) for _ in range(4)]
         nv = [2]
@@ -121,6 +135,29 @@ def gen_kernel_line(rng):
             x = nv; nv += 1
             return ["b", f"v{x}", o, a, b], nv
         for _ in range(rng.range(2, 9)):
+            if rng.chance(1, 5):
+                # IfElse with statement-block branches and final assignments
+                n_out, saved = nv, list(exprs)
+                b1 = []
+                for _ in range(rng.range(0, 2)):
+                    st, _ = simple(nv, True); b1 += st
+                n1 = nv
+                exprs[:] = saved
+                b2 = []
+                for _ in range(rng.range(0, 2)):
+                    st, _ = simple(nv, True); b2 += st
+                n2 = nv
+                exprs[:] = saved
+                fas = []
+                nf = rng.range(0, 2)
+                for _ in range(nf):
+                    e1 = f"v{rng.below(n1)}" if rng.chance(3, 4) else "i1"
+                    # the else branch may only name outer variables or its own definitions
+                    cands2 = list(range(n_out)) + list(range(n1, n2))
+                    e2 = f"v{rng.pick(cands2)}" if rng.chance(3, 4) else "i2"
+                    fas += [f"v{nv}", e1, e2]; nv += 1
+                toks += ["{", f"v{rng.below(n_out)}"] + b1 + ["|"] + b2 + [";", str(nf)] + fas + ["}"]
+                continue
             if rng.chance(1, 4):
                 inner, saved = [], list(exprs)
                 n_in = nv
@@ -138,6 +175,25 @@ def gen_kernel_line(rng):
             else:
                 st, _ = simple(nv, True)
                 toks += st
+        if rng.chance(1, 3):
+            # the same block as the body of a While preceded by a prefix block: loop variables with
+            # initial values from the prefix (duplicates included) and loop values from the body
+            pre, npre = [], 2
+            pexprs = []
+            for _ in range(rng.range(0, 3)):
+                if pexprs and rng.chance(1, 2):
+                    o, a, b = rng.pick(pexprs)
+                else:
+                    o, a, b = rng.pick(OPS), f"v{rng.below(npre)}", rng.pick([f"v{rng.below(npre)}", f"i{rng.range(0, 5)}"])
+                    pexprs.append((o, a, b))
+                pre += ["b", f"v{100 + npre}", o, a, b]; npre += 1
+            prenames = [f"v{100 + k}" for k in range(2, npre)] + ["v0", "v1", "i0"]
+            defs = [tk for k, tk in enumerate(toks) if k > 0 and toks[k - 1] == "b"]
+            nl = rng.range(0, 2)
+            lvs = []
+            for k in range(nl):
+                lvs += [f"v{200 + k}", rng.pick(prenames), rng.pick(defs) if defs else "i1"]
+            return ["lvnw " + " ".join(pre + ["~", str(nl)] + lvs + ["|"] + toks)]
         return ["lvn " + " ".join(toks)]
     if kind == "dce":
         toks, nv = [], 2
@@ -274,8 +330,6 @@ def judge_kernel(line, ans):
         if ans == "none":
             return None
         if ans == "panic":
-            if outer in CMP and inner == "add" and not in_range(c2 - c1):
-                return ("known", "C02-F3", f"merge_binary_expression({outer},{inner},{c1},{c2}) panics computing {c2} - {c1}")
             return ("bad", f"merge_binary_expression({outer},{inner},{c1},{c2}) panics")
         _, op, c = ans.split(); c = int(c)
         for x in BOUNDARY + [c2 - c1, c2 - c1 - 1, c2 - c1 + 1, MAX - c1, MAX - c1 + 1, MIN - c1, MIN - c1 - 1]:
@@ -354,13 +408,13 @@ def judge_iv(line_opt, ans_opt, ans_orig):
             return None
         single = (c == 0 or m == 1)
         wraps = any(not in_range(m * x + c) for x in (i0, b, i0 + 40 * st))
-        if single and (g != "lt" or m <= 0 or wraps):
+        if single and m > 0 and (g != "lt" or wraps):
             return ("known", "C02-F4", f"loop {line_opt}: original {ans_orig}, optimised {ans_opt}")
         return ("bad", f"loop termination changed: original `{ans_orig}` optimised `{ans_opt}` for {line_opt}")
     if ans_opt != ans_orig:
         single = (c == 0 or m == 1)
         wraps = any(not in_range(m * x + c) for x in (i0, b, i0 + 40 * st))
-        if single and (g != "lt" or m <= 0 or wraps):
+        if single and m > 0 and (g != "lt" or wraps):
             return ("known", "C02-F4", f"guard `i {g} {b}`, j = i*{m}+{c}: original `{ans_orig}`, optimised `{ans_opt}`")
         return ("bad", f"loop optimisation changes behaviour of {line_opt}: `{ans_orig}` vs `{ans_opt}`")
     return None
@@ -396,6 +450,8 @@ def nontrivial_kernel(line, ans):
     if k == "ivloop": return ans.startswith("out ") and not ans.startswith("out - ")
     if k == "srloop": return ans.startswith("out ") and ans != "out -"
     if k in ("licm", "cse"): return ans != "hoisted -"
+    if k == "inl": return " m:" in ans
+    if k == "lvnw": return True
     if k == "lvn": return ans.count(" b ") + ans.startswith("b ") < line.count(" b ")
     if k == "dce": return line.count(" b ") > (0 if ans == "kept -" else ans.count(",") + 1)
     return False
@@ -759,7 +815,7 @@ class Gen:
                 # symbolic start: m*i + c may wrap for extreme arguments (F4: no overflow reasoning)
                 base = r.pick([v for v in ivs if v[0] != gv])[0]
             if safe_f4 and not print_guard and base == gv:
-                m = r.pick([1, 2, 3])
+                m = r.pick([1, 2, 3, -1, 0, -2])     # zero/negative literal multipliers are declined since fix d2fa066
             else:
                 m = r.pick([1, 2, 3, -1, -2, 4, 0, 5])
             c = r.pick([0, 1, -3, 4, 7, -1])
@@ -945,9 +1001,7 @@ def check_sources(ctx, cases, label):
             continue
         shown = run_harness([f"srcshow {p} {c} | | {text.encode().hex()}"])[0]
         payload = {"protocol": "srcprog", "label": label, "pass": p, "config_bits": c, "source": text, "answer": ans, "mir": shown}
-        if ans.startswith("panic") and "subtract with overflow" in ans and finding(ctx, "C02-F3"):
-            ctx.known(finding(ctx, "C02-F3"))
-        elif ans.startswith("diff"):
+        if ans.startswith("diff"):
             ctx.violation(f"optimisation pass `{p}` (config {c}) changes the behaviour of MIR compiled from samlang source: {ans[:300]}", payload)
         else:
             ctx.violation(f"pass `{p}` (config {c}) fails on MIR compiled from samlang source: {ans[:200]}", payload)
@@ -1052,8 +1106,6 @@ def classify_prog(pass_, fns, answer):
     """Known-finding signature over a (shrunk) failing program. Returns finding id or None."""
     stmts = [s for f in fns for s in walk(f[3])]
     defs = {s[1]: s for s in stmts if s[0] == "bin"}
-    if answer.startswith("panic") and "subtract with overflow" in answer and pass_ in ("ccp", "rounds", "all"):
-        return "C02-F3"      # the comparison-merge arm still computes c2 - c1 unchecked
     m = re.match(r"diff arg=\d+ args=(\S*) before=(\S+) after=(\S+)", answer)
     if not m:
         return None
@@ -1086,7 +1138,7 @@ def classify_prog(pass_, fns, answer):
                 if len(derived) >= 1 and not effects:
                     d = derived[0]
                     mult = d[4] if d[3] == ivar else d[3]
-                    bad_mult = d[2] == "mul" and (not mult.lstrip("-").isdigit() or int(mult) <= 0)
+                    bad_mult = d[2] == "mul" and not mult.lstrip("-").isdigit()      # symbolic multiplier of unknown sign
                     init = [lv[1] for lv in w[1] if lv[0] == ivar]
                     symbolic = not guard[4].lstrip("-").isdigit() or any(not x.lstrip("-").isdigit() for x in init)
                     if guard[2] != "ge" or bad_mult or symbolic:
@@ -1100,10 +1152,9 @@ PROBES = [
     ("C02-F2", "all", 31, [(0, 0), (3, 0)], "fn f0 2 bin a mod p0 p0 ret a end"),
     ("C02-F3", "ccp", 31, [(1, 2), (MAX, 0)], "fn f0 2 bin a add p0 1 bin b lt a 0 call print 1 b _ ret b end"),
     ("C02-F3", "all", 31, [(1, 2), (MIN, 0)], "fn f0 2 bin a sub p0 1 bin b gt a 5 ret b end"),
-    ("C02-F3", "ccp", 31, [(1, 2)], "fn f0 2 bin a add p0 1 bin b lt a -2147483648 ret b end"),
     ("C02-F4", "loop", 31, [(0, 0)], "fn f0 2 while 2 i 0 ni last 0 j { bin cc gt i 10 sif cc 0 { brk last } bin j mul i 2 bin ni add i 1 } r ret r end"),
     ("C02-F4", "all", 4, [(0, 0)], "fn f0 2 while 2 i 0 ni last 0 j { bin cc gt i 10 sif cc 0 { brk last } bin j mul i 2 bin ni add i 1 } r ret r end"),
-    ("C02-F4", "loop", 31, [(0, 0)], "fn f0 2 while 2 i 0 ni last 0 j { bin cc ge i 3 sif cc 0 { brk last } call print 1 last _ bin j mul i -1 bin ni add i 1 } r ret r end"),
+    ("C02-F4", "loop", 31, [(0, -1)], "fn f0 2 while 2 i 0 ni last 0 j { bin cc ge i 3 sif cc 0 { brk last } call print 1 last _ bin j mul i p1 bin ni add i 1 } r ret r end"),
 ]
 
 
